@@ -8,7 +8,7 @@ from . import build, treegen as TG, treejudge as TJ, treemodel as TM, treerun as
 NCPU = os.cpu_count() or 4
 
 PROFILES = {
-    "C13": dict(spec=dict(p_ig=0.15, p_args=0.35, p_generic=0.25, max_benches=14), cfg=dict(actions=["test", "test", "test", "bench"], p_filters=0.95, p_ignore_flag=0.4, p_sort=0.2)),
+    "C13": dict(spec=dict(p_ig=0.15, p_args=0.35, p_generic=0.25, max_benches=14), cfg=dict(actions=["test", "test", "test", "bench", "terse", "list"], p_filters=0.95, p_ignore_flag=0.4, p_sort=0.2)),
     "C14": dict(spec=dict(p_ig=0.35, p_args=0.35, p_generic=0.2, max_benches=12), cfg=dict(actions=["list", "terse", "list_benches"], p_filters=0.5, p_ignore_flag=0.7, p_sort=0.2)),
     "C15": dict(spec=dict(p_sc=0.5, p_ss=0.6, p_th=0.35, p_ig=0.25, p_ctr=0.35, p_time=0.15, p_bcounter=0.25, p_group=0.7, max_benches=10, p_args=0.15, p_generic=0.15),
                 cfg=dict(actions=["bench", "bench", "bench", "test", "list"], p_filters=0.1, p_ignore_flag=0.4, p_sort=0.1, p_runner_opts=0.7, time_opts=True,
@@ -97,6 +97,8 @@ def run_jobs(prop, jobs, out, want=None, extra=None):
         out.evaluations += 1
         it = cfg.intent
         if it.action == "terse":
+            if prop == "C13":
+                c13_terse(sp, cfg, res, out, agg)
             continue
         vs, obs, incon = TJ.judge(sp, cfg, res, want=want or {prop})
         if incon:
@@ -116,6 +118,25 @@ def run_jobs(prop, jobs, out, want=None, extra=None):
         if extra is not None:
             extra(sp, cfg, res, exe)
     return agg, results, exe
+
+
+def c13_terse(sp, cfg, res, out, agg):
+    """The terse listing is a second place where selection shows: it must name exactly the selected cases that would run."""
+    if res.rc != 0 or res.terse is None:
+        out.inconclusive_shard("terse listing exited %s: %s" % (res.rc, res.stderr[-200:]))
+        return
+    it = cfg.intent
+    eroots, executions, mroots, sel = TM.expected_tree(sp, it_for_test(it))
+    want = sorted({ex_["case"].path() for ex_ in executions})
+    listed = sorted({l[:-len(": benchmark")] for l in res.terse if l.endswith(": benchmark")})
+    agg["terse_listings"] = agg.get("terse_listings", 0) + 1
+    agg["terse_lines"] = agg.get("terse_lines", 0) + len(listed)
+    extra = [p for p in listed if p not in want]
+    missing = [p for p in want if p not in listed]
+    if extra:
+        out.violation("C13:terse_shows_unselected", "terse listing shows %s which the filters / ignore flags exclude (cli %s)" % (extra[:4], cfg.cli), replay_payload(sp, cfg, res))
+    if missing:
+        out.violation("C13:terse_misses_selected", "terse listing lacks the selected cases %s (cli %s)" % (missing[:4], cfg.cli), replay_payload(sp, cfg, res))
 
 
 # ---------------------------------------------------------------------------
